@@ -29,7 +29,7 @@ after `Close` of the merged stream was requested (`streamMerge_goroutines_finish
 This file adds it: `nuU` is strictly decreased by **every** step other than the consumer starting a call
 (`cCall`, `cClose`), in every state; hence the library cannot run for ever on its own, a quiescent state
 with a pending `Next` is always waiting for a *specific* input whose `Next` is in progress and not
-cancelled, and the pending `Next` returns within `nuU ≤ 10·k + 5` steps once those inputs answer.
+cancelled, and the pending `Next` returns within `nuU ≤ 10·k + 6` steps once those inputs answer.
 -/
 namespace Juniper.Props.C12Progress
 open Juniper.Model
@@ -39,14 +39,15 @@ open Juniper.Model.StreamMerge Juniper.Proofs.StreamMerge
 variable {V : Type}
 
 /-- **The measure (stream.Merge).** Every step other than `cCall` / `cClose` strictly decreases `nuU`
-— goroutine steps, the consumer's `select` arms, the statements of `Close`, and every return of an
+— goroutine steps, the consumer's `select` arms, the expiry of the consumer's context while its `Next` is
+pending (`cExpire`), the statements of `Close`, and every return of an
 input's `Next` — in every state whose context is the one of the code read on this run (`origin = ctxOrigin`;
 the proof re-derives `ctxOrigin = plainCancel` from the regenerated facts: the environment label `ctxEnds`,
 "the context ends without `cancel()`", which would not decrease the measure, is dead); in states reachable
-from `Merge(in₀,…,in_{k-1})`, `nuU ≤ 10·k + 5`. -/
+from `Merge(in₀,…,in_{k-1})`, `nuU ≤ 10·k + 6`. -/
 theorem streamMerge_measure (k : Nat) :
     (∀ (s s' : St V) l, s.origin = ctxOrigin → step s l = some s' → isCall l = false → nuU s' < nuU s) ∧
-    (∀ s : St V, Reach (init V k) s → nuU s ≤ 10 * k + 5) :=
+    (∀ s : St V, Reach (init V k) s → nuU s ≤ 10 * k + 6) :=
   have ho : ctxOrigin = .plainCancel := by decide
   ⟨fun _ _ _ hs h hl => nuU_decreases (hs.trans ho) h hl, fun _ h => nuU_le (reach_invA h) (reach_invD h)⟩
 
@@ -55,14 +56,14 @@ inputs' returns, except where the consumer calls `Next` -/
 example : (List.range 9).map (fun n => (run (init (Option Int) 2)
       (([.inItem 0 (some 3), .inItem 1 (some 7), .cCall true, .sendOk 1, .inEnd 1, .exitStep 1, .cCall true, .sendOk 0] :
         List (Label (Option Int))).take n)).map nuU)
-    = [some 20, some 16, some 12, some 17, some 16, some 11, some 10, some 15, some 14] := by
+    = [some 20, some 16, some 12, some 18, some 16, some 11, some 10, some 16, some 14] := by
   decide
 
 /-- **Internal steps terminate (stream.Merge).** From any reachable state every sequence of steps that
 contains no new call of the consumer — in particular every sequence of steps from `internalLabels` —
-has at most `nuU s ≤ 10·k + 5` elements; there is no infinite run of such steps. -/
+has at most `nuU s ≤ 10·k + 6` elements; there is no infinite run of such steps. -/
 theorem streamMerge_internal_steps_terminate (k : Nat) (s : St V) (h : Reach (init V k) s) :
-    (∀ ls s', (∀ l ∈ ls, isCall l = false) → run s ls = some s' → ls.length + nuU s' ≤ nuU s ∧ ls.length ≤ 10 * k + 5) ∧
+    (∀ ls s', (∀ l ∈ ls, isCall l = false) → run s ls = some s' → ls.length + nuU s' ≤ nuU s ∧ ls.length ≤ 10 * k + 6) ∧
     (∀ l, l ∈ internalLabels s → isCall l = false) ∧
     ¬ ∃ σ : Nat → St V, σ 0 = s ∧ ∀ n, ∃ l, isCall l = false ∧ step (σ n) l = some (σ (n + 1)) := by
   have ho : ctxOrigin = .plainCancel := by decide
@@ -86,10 +87,10 @@ theorem streamMerge_internal_steps_terminate (k : Nat) (s : St V) (h : Reach (in
     omega
 
 /-- non-vacuity: two goroutines each holding an item, the consumer inside `Next`: hand-over, then the
-other input ends and its goroutine runs its five deferred steps — 7 steps in a row, measure 17 → 6 -/
+other input ends and its goroutine runs its five deferred steps — 7 steps in a row, measure 18 → 6 -/
 example : ∃ s s' : St (Option Int), Reach (init (Option Int) 2) s ∧
     run s [.sendOk 1, .inEnd 1, .exitStep 1, .exitStep 1, .exitStep 1, .exitStep 1, .exitStep 1] = some s' ∧
-    nuU s = 17 ∧ nuU s' = 6 :=
+    nuU s = 18 ∧ nuU s' = 6 :=
   ⟨_, _, reach_of_run [.inItem 0 (some 3), .inItem 1 (some 7), .cCall true] .refl rfl, rfl, by decide, by decide⟩
 
 /-- **A pending `Next` never waits on the library (stream.Merge).** In every reachable state in which
@@ -119,7 +120,7 @@ example : ∃ s : St (Option Int), Reach (init (Option Int) 2) s ∧ s.cpc = .in
 
 /-- **`Next` of the merged stream returns.** For a reachable state inside `Next`: (1) every continuation
 without a new consumer call — goroutine steps and input returns in any order — has at most
-`nuU s ≤ 10·k + 5` steps, the call being still pending or having returned exactly one result; (2) a
+`nuU s ≤ 10·k + 6` steps, the call being still pending or having returned exactly one result; (2) a
 continuation ending where nothing internal is enabled and no input's `Next` is in progress has returned;
 (3) a continuation to the return exists. So `Next` returns within `nuU s` steps of the whole system,
 provided the inputs' pending `Next` calls return. -/
@@ -127,7 +128,7 @@ theorem streamMerge_next_terminates (k : Nat) (s : St V) (h : Reach (init V k) s
     (hc : s.cpc = .inNext live) :
     (∀ ls s', (∀ l ∈ ls, isCall l = false) → run s ls = some s' →
       ls.length + nuU s' ≤ nuU s ∧ NextOutcome s s') ∧
-    nuU s ≤ 10 * k + 5 ∧
+    nuU s ≤ 10 * k + 6 ∧
     (∀ ls s', (∀ l ∈ ls, isCall l = false) → run s ls = some s' → QuiescentM s' →
       (∀ g, g ∈ s'.gs → g.pc ≠ .next) → s'.cpc = .idle ∧ ∃ r, s'.results = s.results ++ [r]) ∧
     (∃ ls s', (∀ l ∈ ls, isCall l = false) ∧ run s ls = some s' ∧ ls.length ≤ nuU s ∧
@@ -151,7 +152,7 @@ theorem streamMerge_next_terminates (k : Nat) (s : St V) (h : Reach (init V k) s
 
 /-- non-vacuity: the consumer waits in `Next` with both inputs silent; input 1 returns an item and the
 hand-over ends the `Next` -/
-example : ∃ s s' : St (Option Int), Reach (init (Option Int) 2) s ∧ s.cpc = .inNext true ∧ nuU s = 25 ∧
+example : ∃ s s' : St (Option Int), Reach (init (Option Int) 2) s ∧ s.cpc = .inNext true ∧ nuU s = 26 ∧
     run s [.inItem 1 (some 7), .sendOk 1] = some s' ∧ s'.cpc = .idle ∧ s'.results = s.results ++ [.item 1 (some 7)] :=
   ⟨_, _, reach_of_run [.cCall true] .refl rfl, rfl, by decide, rfl, rfl, rfl⟩
 
